@@ -450,6 +450,48 @@ def run_schedules(ctx):
                               'equality with TokSched.tla' % (maxops, K))
 
 
+LONG_MC = """---- MODULE MC_TokLong ----
+EXTENDS TokLong
+AtomsDef == %(atoms)s
+CfgsDef == %(cfgs)s
+====
+"""
+LONG_CFG = """CONSTANTS
+  VTok = "intended"
+  Atoms <- AtomsDef
+  Cfgs <- CfgsDef
+  MaxAtoms = %(maxatoms)d
+  CfgNames = {%(names)s}
+  Modes = {"strict", "tolerant"}
+SPECIFICATION Spec
+INVARIANT Chain
+INVARIANT Lossless
+INVARIANT BoundedReads
+INVARIANT Emit
+CHECK_DEADLOCK FALSE
+"""
+
+
+def run_long(ctx):
+    """random longer strings: tlc -simulate over TokLong.tla, replayed with the full schedule on the real reader"""
+    quick = ctx.tier == 'quick'
+    names = sorted(CONFIGS)
+    maxatoms = 14 if quick else 30
+    cfgs = ' @@ '.join('("%s" :> %s)' % (n, pstate.tla_record(CONFIGS[n])) for n in names)
+    mc = LONG_MC % dict(atoms=pstate.atoms_tla(ATOMS), cfgs=cfgs)
+    tot = 0
+    nsim = 4 if quick else 16
+    jobs = [dict(payload=dict(sample_every=10), main='MC_TokLong', mc=mc,
+                 cfg=LONG_CFG % dict(maxatoms=maxatoms, names=', '.join('"%s"' % n for n in names)),
+                 tlc_kw=dict(timeout=900, xmx='2g', simulate='num=%d' % (1500 if quick else 6000), depth=maxatoms + 2,
+                             seed=(ctx.seed * 131 + k) % (2 ** 31))) for k in range(nsim)]
+    m = common.run_shards(ctx, ('harness.c11', 'TokConsumer'), jobs, what='TokLong: random strings of %d atoms (simulate)' % maxatoms)
+    ctx.add_merged(m, validated=True)
+    ctx.log('random long strings (%d atoms): %d executions, %s' % (maxatoms, m['n'],
+            {k: v for k, v in m['counters'].items() if k in ('same', 'deviates')}))
+    _validate(ctx, m)
+
+
 def run(ctx):
     quick = ctx.tier == 'quick'
     ctx.rule = ('TLC enumerates every string of <= K atoms over a 23-atom LaTeX alphabet (incl. CR and TAB) x parsing-state configurations '
@@ -485,6 +527,7 @@ def run(ctx):
                 {k: v for k, v in m['counters'].items() if k in ('same', 'deviates')}))
         _validate(ctx, m)
     run_schedules(ctx)
+    run_long(ctx)
     run_repo_tests(ctx, None if not quick else ['test_latexnodes_tokenreader.py', 'test_latexnodes_nodescollector.py',
                                                 'test_latexnodes_parsers_delimited.py', 'test_2_latexwalker.py'])
     ctx.exhaustive = True
